@@ -75,6 +75,10 @@ type Shim struct {
 	Partitions func(start, end []byte) []storage.Partition
 	// TTL overrides SupportTTL if non-nil
 	TTL *bool
+	// FixedClient, if >= 0, attributes every call of this shim to that client id (for callers that drop the context)
+	FixedClient int
+	// OnGetResult observes the result of every Get
+	OnGetResult func(client int, key, val []byte, err error)
 
 	mu       sync.Mutex
 	nCommit  int
@@ -90,13 +94,23 @@ var shimCoder = coder.NewNormalCoder()
 
 // NewShim wraps inner; buffer should be true for memkv
 func NewShim(inner storage.KvStorage, buffer bool) *Shim {
-	return &Shim{Inner: inner, BufferBatches: buffer}
+	return &Shim{Inner: inner, BufferBatches: buffer, FixedClient: -1}
 }
 
 func (s *Shim) gate(ctx context.Context, point string, detail interface{}) {
 	if s.Gate != nil {
+		if s.FixedClient >= 0 {
+			ctx = ClientCtx(s.FixedClient)
+		}
 		s.Gate(ctx, point, detail)
 	}
+}
+
+func (s *Shim) clientOf(ctx context.Context) int {
+	if s.FixedClient >= 0 {
+		return s.FixedClient
+	}
+	return ClientOf(ctx)
 }
 
 // GetTimestampOracle implements storage.KvStorage
@@ -122,7 +136,11 @@ func (s *Shim) Get(ctx context.Context, key []byte) ([]byte, error) {
 	if s.OnGet != nil && s.OnGet(idx, key) != Pass {
 		return nil, ErrInjected
 	}
-	return s.Inner.Get(ctx, key)
+	v, err := s.Inner.Get(ctx, key)
+	if s.OnGetResult != nil {
+		s.OnGetResult(s.clientOf(ctx), key, v, err)
+	}
+	return v, err
 }
 
 type shimIter struct {
@@ -307,7 +325,7 @@ func (b *shimBatch) discard() {
 
 func (b *shimBatch) Commit(ctx context.Context) error {
 	s := b.s
-	ci := &CommitInfo{Client: ClientOf(ctx), Ops: b.ops}
+	ci := &CommitInfo{Client: s.clientOf(ctx), Ops: b.ops}
 	for _, op := range b.ops {
 		if op.Kind == "put" && len(op.Key) >= 13 {
 			if raw, rev, err := shimCoder.Decode(op.Key); err == nil && rev != 0 {
